@@ -2,6 +2,7 @@
 package scen
 
 import (
+	"github.com/bnb-chain/tss-lib/v2/common"
 	"encoding/json"
 	"fmt"
 	"math/big"
@@ -283,6 +284,8 @@ func FaultScenarios(seed int64) map[string]func() protomc.Scenario {
 	msg.Mod(msg, ref.Secp256k1.N)
 	return map[string]func() protomc.Scenario{
 		"eddsa-keygen":    func() protomc.Scenario { return EdKeygen("small", 3, 1, seed) },
+		// party ids chosen so that the session id of the keygen (a hash taken as a number) has a leading zero byte
+		"eddsa-keygen-shortssid": func() protomc.Scenario { return EdKeygenShortSSID(3, 1, seed) },
 		"eddsa-signing":   func() protomc.Scenario { return EdSigning("small", 3, 1, []int{0, 1, 2}, msg, 0, seed) },
 		"eddsa-resharing": func() protomc.Scenario { return EdResharing(3, 1, []int{0, 2}, 2, 1, seed) },
 		"ecdsa-signing":   func() protomc.Scenario { return EcSigning("small", 2, 1, []int{0, 1}, msg, 0, seed) },
@@ -311,4 +314,28 @@ func FaultScenarios(seed int64) map[string]func() protomc.Scenario {
 			return sc
 		},
 	}
+}
+
+// KeygenSSIDLen: byte length of the session id the keygen rounds derive for these party keys (the documented
+// construction: curve parameters, sorted party keys, round number 1, nonce 0, hashed, taken as a number).
+func KeygenSSIDLen(c *ref.Curve, keys []*big.Int) int {
+	l := []*big.Int{c.P, c.N, c.Gx, c.Gy}
+	l = append(l, keys...)
+	l = append(l, big.NewInt(1), big.NewInt(0))
+	return len(common.SHA512_256i(l...).Bytes())
+}
+
+// EdKeygenShortSSID: the first id set 1500+k, 1501+k, ... (ascending k) whose session id is shorter than 32 bytes.
+func EdKeygenShortSSID(n, t int, seed int64) protomc.Scenario {
+	for k := 0; k < 100000; k++ {
+		ks := make([]*big.Int, n)
+		for i := range ks {
+			ks[i] = big.NewInt(int64(1500 + k + i))
+		}
+		if KeygenSSIDLen(ref.Ed25519, ks) < 32 {
+			return protomc.Scenario{Name: fmt.Sprintf("eddsa-keygen/n=%d,t=%d,ids=%d..(short session id)", n, t, 1500+k),
+				Cfg: netrun.Config{Proto: netrun.EddsaKeygen, Keys: ks, Threshold: t, Seed: seed, Label: "shortssid"}}
+		}
+	}
+	panic("no id set with a short session id")
 }
